@@ -141,6 +141,15 @@ impl<'a> Hist<'a> {
                 // C04: every input of an accepted batch is approved by its covenant, evaluated independently
                 let bad: Vec<String> = approvals.iter().filter(|a| a.2 != Some(true)).map(|a| format!("tx{}.in{}={:?}", a.0, a.1, a.2)).collect();
                 self.out.fact("C04", "independent-covenant-evaluation", bad.is_empty(), &bad.join(" "));
+                // C05: every accepted transaction pays at least its own minimum fee
+                let mult = s.verif_parts().fee_multiplier;
+                let under: Vec<String> = txs
+                    .iter()
+                    .enumerate()
+                    .filter(|(_, t)| t.fee.0 < crate::txgen::min_fee(t, mult))
+                    .map(|(i, t)| format!("tx{} pays {} < minimum {}", i, t.fee.0, crate::txgen::min_fee(t, mult)))
+                    .collect();
+                self.out.fact("C05", "accepted-tx-pays-minimum-fee", under.is_empty(), &under.join("; "));
                 self.batch_order_facts(&s, txs, Some(&dump));
                 self.w.unsealed.insert(dst.clone(), st);
                 self.bump(&format!("batch-ok:{}", label));
